@@ -55,6 +55,10 @@ CHECKS = {
  "C11": ("Lean 4 theorems: escape-free strings denote themselves (induction), each JSON escape / \\uXXXX / surrogate pair denotes its character and malformed ones are errors, literal nodes evaluate to themselves on every input, array constructors keep nested constructors and non-array members as units; regenerated escape table; + correspondence with encoding/json on generated JSON texts",
          "Kernel-checked: unescape is the identity on strings without backslash (all lengths), maps each escape to its character, decodes surrogate pairs and rejects unpaired/malformed escapes; string/number/boolean/null nodes evaluate to themselves whatever the input; array constructors do not flatten nested constructors nor collapse singletons; an object constructor with a literal key yields that member. PARTIAL: that the parser maps every JSON text to the corresponding tree and that number literals are read as the nearest double are carried by the correspondence: generated JSON texts (all escapes, astral characters, deep nesting, empty containers, duplicate-free keys, number spellings with exponents) are compiled and evaluated by /repo and by the Lean lexer/parser/evaluator and compared with encoding/json's decoding.",
          "DESIGN.md section 6 C11", "strconv.ParseFloat is modelled by an exact-rational nearest-even conversion (Model/Decimal.lean), validated by the correspondence."),
+ "C17": ("Lean 4 theorems with the regex engine as a parameter: back-to-front splicing = left-to-right replacement for ordered matches, $replace by $0 is the identity, split pieces woven with the matches rebuild the subject, template expansion rules ($0, $$, lone $, longest existing group number via pickGroup, saturating digit strings), match object members and next-chain enumeration; regenerated facts on callable.go / jlib/string.go; + correspondence in which the model consumes regexp.FindAllStringSubmatchIndex of the real engine, and an independent oracle written from the statement",
+         "Kernel-checked for every subject, every ordered match list and every template: replaceMatchFunc's splicing equals untouched text / replacement / untouched text, replacing each match by itself returns the subject, $split's pieces interleaved with the matched texts rebuild the subject (piece count = matches + 1), a template without $ is copied, $0/$$/lone $ rules, $N inserts the group numbered by the longest digit prefix that exists and consumes exactly those digits (none: one digit is dropped), digit strings of any length cannot wrap around, applying a regex gives the first match object and its next member enumerates the rest and then no value. PARTIAL: that the matches are the leftmost non-overlapping RE2 matches and the meaning of the flags i/m/s is the contract of Go's regexp package (trusted); the model takes the engine's match list as data. "
+         "Tied to /repo by generated patterns (classes, alternation, nested/optional/non-capturing groups, lazy and greedy quantifiers, anchors, flags) x subjects up to length 16 with multi-byte characters x templates x limits -1..4: Go's result is compared with the Lean model fed with the real engine's matches and with a direct oracle; invalid and empty patterns must be compile errors exactly when regexp.Compile rejects them; user-defined matcher functions with good and bad offsets.",
+         "DESIGN.md section 6 C17", "regexp (RE2) is a parameter: FindAllStringSubmatchIndex is trusted to return leftmost, non-overlapping, in-bounds matches."),
  "C05": ("Lean 4 world model (history independence, tree unchanged) + regenerated write-set obligations (every field/element write of the evaluator packages is on an accounted allow-list; per-call copy of built-ins; chain builds a fresh call) + history correspondence with AST deep comparison through the verif hook",
          "Kernel-checked: in the model an evaluation is a function of (tree, input): outcomes are independent of any history and the tree is unchanged. The tie to the source is (a) decide-checked obligations over the regenerated write set: every statement writing through a field, element or pointer in eval/callable/env/jsonata/jlib must be on the allow-list (none targets a syntax-tree node, the name/context setters run on a per-call copy made before them, the chain operator builds a new call node, each Eval makes a new environment), and (b) histories of 2..5 Evals on one Expr with other expressions in between, comparing every outcome with a freshly compiled Expr, String() and the parsed tree (verif accessor) before/after.",
          "DESIGN.md section 6 C05", "The write-set extractor is syntactic (go/ast): it lists assignments and inc/dec whose target is a selector, index or dereference; writes through reflect or method calls are covered by the mutator list of C07."),
